@@ -471,3 +471,17 @@ def diff_disk(real, model):
             if not feq(x[1], y[1]) or not feq(x[2], y[2]):
                 return 'file %s entry %d %r: real (%r, %r) model (%r, %r)' % (fn, i, x[0][:3], x[1], x[2], y[1], y[2])
     return None
+
+
+# ------------------------------------------------------------------------------------------------ driver access
+def driver_run(ctx, lines, tries=60, pause=2.0):
+    """ctx.driver.run, tolerant of the binary being re-linked by a concurrent build in the shared tree (the build lock
+    is held while building, not while a check runs): wait for it to come back instead of crashing"""
+    err = None
+    for _ in range(tries):
+        try:
+            return ctx.driver.run(lines)
+        except (FileNotFoundError, PermissionError, OSError) as e:
+            err = e
+            _real_time.sleep(pause)
+    raise lib.Infra('model driver not runnable: %s' % err)
